@@ -157,6 +157,14 @@ def feasible(body, path):
                     return False
             continue
         c = strip(view.resolve_operand(t["discr"]))
+        if c[0] == "const" and isinstance(c[1], (bool, int)):
+            # the tested value is, on this very path, a constant (a flag chosen in an earlier arm: `(s, true)`)
+            val = (1 if c[1] else 0) if isinstance(c[1], bool) else c[1]
+            labs = [l for l, tg in body.edges(a) if tg == b]
+            listed = [ll[1] for ll, _ in body.edges(a) if ll != "otherwise"]
+            if not any((l == "otherwise" and val not in listed) or (l != "otherwise" and l[1] == val) for l in labs):
+                return False
+            continue
         if c[0] != "discr":
             continue
         x = strip(c[1])
